@@ -372,7 +372,23 @@ func (f *frame) applyContract(sp *FuncSpec, callee *ssa.Function, args []Val, pc
 		ord = siteOrdinal(f.fn, x, funcKey(callee))
 	}
 	site := fmt.Sprintf("call#%d(%s)", ord, sp.Key)
-	if !f.inlined || f.flagOn("check-inlined", false) {
+	assumeReq := false
+	if rs := f.root().spec; rs != nil {
+		for _, k := range strings.Split(rs.Flags["assume-requires"], ",") {
+			if strings.TrimSpace(k) == sp.Key {
+				assumeReq = true
+			}
+		}
+	}
+	if assumeReq {
+		// "assume-requires K": the preconditions of K at its calls in this function
+		// are ASSUMED (reported as an assumption), e.g. where the receiver is an
+		// interior pointer the contract language cannot describe precisely
+		for _, r := range sp.Requires {
+			c.addHyp(Implies(pc, env.evalBool(r.E)))
+		}
+		c.note("ASSUMED, not checked: the preconditions of " + sp.Key + " at its calls in " + funcKey(f.root().fn) + " (assume-requires)")
+	} else if !f.inlined || f.flagOn("check-inlined", false) {
 		for i, r := range sp.Requires {
 			g := env.evalBool(r.E)
 			name := f.oblName(fmt.Sprintf("%s/requires#%d", site, i+1))
